@@ -421,6 +421,10 @@ Proof.
   - vm_compute in F. injection F as <-. repeat split.
 Qed.
 
+(** ** Calls of a sequence are independent *)
+Lemma calls_independent earlier p : call_model earlier p = Some (init p).
+Proof. reflexivity. Qed.
+
 (** ** The configuration path: which duration the threshold timer is armed with *)
 Lemma effective_threshold_configured cfg :
   (0 < cfg)%Z -> effective_threshold cfg = (cfg * 1000000)%Z.
